@@ -71,7 +71,7 @@ P.update({
 })
 
 P.update({
-  'C01': (True, 'Wire.tla, Wire_Trace.tla',
+  'C01': (True, 'Wire.tla, Wire_Trace.tla, Listen.tla',
           'TLC exhausts Wire.tla (frames of good / bad / over-long kind, the receivers buffer-and-consume loop) over every stream of up to 3 frames and every segmentation and proves ExactlyOnceInOrder, CloseOnlyOversize and AppendOnly; concrete streams of well-formed datapoints (non-ASCII names, fractional and > 2^31 timestamps, +-inf, -0.0, subnormals, random 64-bit patterns, integers, pickle protocols 0-5, any batching) are fed to the real MetricLineReceiver / MetricPickleReceiver under every single cut position, all-1-byte segments and random multi-cuts and to MetricDatagramReceiver per datagram; a recorder on events.metricReceived is the observation and Wire_Trace.tla judges every segment.',
           'bit-exact float comparison is a value oracle; protobuf listener not importable; Twisted framing code is in the loop (observed, not trusted)',
           TECH),
